@@ -241,22 +241,24 @@ def run(ctx):
     # constructors cross-wire the endpoints
     for ctor, ty in (('transport::channel::unbounded', 'UnboundedChannel'), ('transport::channel::bounded', 'transport::channel::Channel')):
         c = F.free_fn(ctor)
-        aggs = [(i, j, s) for i, j, s in c.aggregates(ty)]
-        ok = len(aggs) == 2
-        det = ''
+        # read off the returned pair: (A, B), each with a sending half `tx` and a receiving half `rx` (however the endpoints are put together)
+        ret = P._local_whole(c, 0)
+        ends, ok, det = [], True, ''
+        for k in (0, 1):
+            end = P._field(ret, k, k)
+            tx = P.root(P._field(end, 'tx'))
+            rx = P.root(P._field(end, 'rx'))
+            if len(tx) != 1 or len(rx) != 1:
+                ok = False
+                det = 'endpoint %d: %d tx sources, %d rx sources' % (k, len(tx), len(rx))
+                break
+            ends.append(((P.unbound(tx[0][0]), norm_path(tx[0][1])), (P.unbound(rx[0][0]), norm_path(rx[0][1]))))
         if ok:
-            ends = []
-            for i, j, s in aggs:
-                tx = P.root(P._field(('agg', c.id, i, j), 'tx'))
-                rx = P.root(P._field(('agg', c.id, i, j), 'rx'))
-                if len(tx) != 1 or len(rx) != 1:
-                    ok = False
-                    break
-                ends.append((P.unbound(tx[0][0]), P.unbound(rx[0][0])))
-            if ok:
-                (t1, r1), (t2, r2) = ends
-                ok = t1 != r1 and t2 != r2 and t1 == r2 and t2 == r1 and t1[0] == 'call' and t2[0] == 'call'
-                det = 'A.tx@%s A.rx@%s B.tx@%s B.rx@%s' % (t1[2:], r1[2:], t2[2:], r2[2:])
+            (t1, r1), (t2, r2) = ends
+            # each channel(..) call returns (sender, receiver): A sends into the channel B receives from, and vice versa
+            same_chan = lambda tx_, rx_: tx_[0] == rx_[0] and tx_[0][0] == 'call' and tx_[1] != rx_[1]
+            ok = same_chan(t1, r2) and same_chan(t2, r1) and t1[0] != t2[0]
+            det = 'A.tx@%s A.rx@%s B.tx@%s B.rx@%s' % (t1[0][2:], r1[0][2:], t2[0][2:], r2[0][2:])
         R.ob('C15.forward', (ctor, 'endpoints cross-wired'), ok, 'what one endpoint sends is what the other receives (tx/rx pairs crossed), and no endpoint talks to itself', [c.loc(c.d)], det)
     from .common import sink_delegation
     n_del = sink_delegation(ctx, 'C15.delegate', ['serde_transport::Transport', 'transport::channel::Channel'])
